@@ -56,7 +56,8 @@ def spectral_info(A):
     sc = max(abs(w[0]), abs(w[2]))
     gap = float(min(w[1] - w[0], w[2] - w[1]) / sc)
     off = float(max(abs(A[0, 1]), abs(A[0, 2]), abs(A[1, 2])))
-    return gap, bool(off <= 1e-14 * nA), float((w[2] - w[0]) / sc)
+    # axis aligned = exactly diagonal: with a repeated pair, off-diagonal rounding noise of any size decides the eigen-frame
+    return gap, bool(off == 0.0), float((w[2] - w[0]) / sc)
 
 
 def d8_class(infos):
@@ -257,5 +258,8 @@ def rootfind_budget_signature(law, trial, e_old, dt, max_iters=50, noise=0.0):
     n_needed = math.log2(W / dx) if dx > 0 else float("inf")
     unrepresentable = dx < spacing
     match = bool(unrepresentable or (law.rate and n_needed >= float(max_iters)))
-    return {"match": match, "rate": law.rate, "root_increment": Dstar, "bracket_width": W, "tolerance_band_halfwidth": dx,
+    # number of floats spanned by the library's bracket [eqps_old, eqps_old + W]: its 10*tol*Y0/(3 mu) pad (D16 repair) is an
+    # absolute strain and drops below the float spacing of eqps once eqps/(Y0/3mu) >~ 1e7 (finding C09-N4)
+    bracket_floats = W / float(onp.spacing(max(e_old, 1e-300)))
+    return {"match": match, "rate": law.rate, "bracket_floats": bracket_floats, "root_increment": Dstar, "bracket_width": W, "tolerance_band_halfwidth": dx,
             "spacing_at_root": spacing, "bisections_needed": n_needed, "unrepresentable": bool(unrepresentable)}
